@@ -101,3 +101,79 @@ package render
 //@ ensures emptied: tw.buf == ""
 //@ ensures flag: tw.trim == old(tw.trim)
 //@ ensures others: forall(x, "Val", x != tw.w ==> wtotal(x) == old(wtotal(x)))
+
+// ---- rendererContext: the implementation of render.Context --------------------------
+//@ typeinv render.rendererContext: self.ctx.bindings != nil
+//@ typeinv render.nodeContext: self.bindings != nil
+
+//@ func (render.rendererContext).Bindings
+//@ pure
+//@ props C12 C03 C01
+//@ ensures def: result == c.ctx.bindings
+
+//@ func (render.rendererContext).Get
+//@ props C12 C08 C01
+//@ panics nothing
+//@ assigns nothing
+//@ ensures lookup: result == mapget(c.ctx.bindings, name)
+
+//@ func (render.rendererContext).Set
+//@ props C12 C03 C01
+//@ panics nothing
+//@ assigns M$has$Str$Val, M$val$Str$Val
+//@ ensures bound: mapset(c.ctx.bindings, name, value)
+
+//@ func (render.rendererContext).SourceFile
+//@ pure
+//@ props C14 C01
+//@ ensures node: c.node != nil ==> result == c.node.SourceLoc.Pathname
+//@ ensures block: c.node == nil && c.cn != nil ==> result == c.cn.SourceLoc.Pathname
+//@ ensures none: c.node == nil && c.cn == nil ==> result == ""
+
+//@ func (render.rendererContext).TagArgs
+//@ pure
+//@ props C14 C01
+//@ ensures node: c.node != nil ==> result == c.node.Token.Args
+//@ ensures block: c.node == nil && c.cn != nil ==> result == c.cn.Token.Args
+//@ ensures none: c.node == nil && c.cn == nil ==> result == ""
+
+//@ func (render.rendererContext).TagName
+//@ pure
+//@ props C01
+//@ ensures node: c.node != nil ==> result == c.node.Token.Name
+//@ ensures block: c.node == nil && c.cn != nil ==> result == c.cn.Token.Name
+//@ ensures none: c.node == nil && c.cn == nil ==> result == ""
+
+//@ func (render.rendererContext).WrapError
+//@ props C07 C01
+//@ panics nothing
+//@ assigns alloc F$parser.sourceLocError$SourceLoc, alloc F$parser.sourceLocError$context, alloc F$parser.sourceLocError$message, alloc F$parser.sourceLocError$cause, alloc S$Val
+//@ ensures nilnil: err == nil ==> result == nil
+//@ ensures nonnil: err != nil ==> result != nil
+//@ ensures cause: err != nil && !is(err, parser.Error) ==> result.Cause() == err
+//@ ensures here: err != nil && !is(err, parser.Error) && c.node != nil ==> result.LineNumber() == c.node.SourceLoc.LineNo && result.Path() == c.node.SourceLoc.Pathname
+
+//@ func (render.rendererContext).Errorf
+//@ props C07 C01
+//@ panics nothing
+//@ assigns alloc F$parser.sourceLocError$SourceLoc, alloc F$parser.sourceLocError$context, alloc F$parser.sourceLocError$message, alloc F$parser.sourceLocError$cause, alloc S$Val
+//@ ensures nonnil: result != nil
+//@ ensures here: c.node != nil ==> result.LineNumber() == c.node.SourceLoc.LineNo && result.Path() == c.node.SourceLoc.Pathname
+//@ ensures block: c.node == nil && c.cn != nil ==> result.LineNumber() == c.cn.SourceLoc.LineNo && result.Path() == c.cn.SourceLoc.Pathname
+
+//@ func render.wrapRenderError
+//@ inline
+//@ func render.renderErrorf
+//@ inline
+
+// ---- a fresh variable map per render: the caller's map is only read (C03, C12) -------
+//@ func render.newNodeContext
+//@ props C03 C12 C02 C01
+//@ panics nothing
+//@ assigns alloc M$has$Str$Val, alloc M$val$Str$Val
+//@ ensures fresh: fresh(result.bindings) && result.config == c
+//@ ensures copy: forall(k, "Str", has(scope, k) ==> has(result.bindings, k) && result.bindings[k] == scope[k])
+//@ ensures only: forall(k, "Str", has(result.bindings, k) ==> has(scope, k))
+//@ loop 1 invariant copied: forall(k, "Str", visited(k) ==> has(vars, k) && vars[k] == scope[k])
+//@ loop 1 invariant subset: forall(k, "Str", has(vars, k) ==> visited(k) && has(scope, k))
+//@ loop 1 invariant fresh: fresh(vars)
